@@ -5,6 +5,7 @@ import (
 	"math/rand"
 	"path/filepath"
 	"sync"
+	"time"
 	"unsafe"
 
 	"github.com/couchbase/nitro"
@@ -98,6 +99,137 @@ func c14Bare(c *rt.C) {
 	}
 }
 
+// c14HeightRace: the list's height while it grows. A writer is held inside the level draw of Insert2
+// (the random source is the caller's, so it may take arbitrarily long) while other writers complete
+// inserts of tall nodes that raise the height; then it is released. Whatever the writers did with the
+// height in between, at quiescence no node may be linked above the list's level (searches, deletes and
+// the unlink pass start there); run for C04 in user-managed memory, no released node may still be linked
+// after the tall nodes were deleted and flushed. Hook-free.
+func c14HeightRace(c *rt.C, prop string) {
+	r := c.Rng
+	mem := memModes()[c.Index%3]
+	if prop == "C04" {
+		mem = []string{"pageguard", "poison"}[c.Index%2]
+	}
+	e := newSLEnv(mem)
+	s := skiplist.NewWithConfig(e.cfg)
+	draws := func(n int) func() float32 {
+		return func() float32 {
+			if n > 0 {
+				n--
+				return 0
+			}
+			return 1
+		}
+	}
+	check := func(round int, when string) bool {
+		w := WalkLive(s, func(a, b unsafe.Pointer) int { return skiplist.CompareInt(a, b) }, func(unsafe.Pointer) int { return 0 }, 1<<16, liveOf(e))
+		c.Evals(1)
+		witness := map[string]interface{}{"mem": mem, "round": round, "when": when, "list_level": s.VerifLevel(), "max_level_linked": w.MaxLevelSeen}
+		if prop == "C04" {
+			// user-managed memory: a deleted node has been flushed and (nothing else holds a token) released
+			if len(w.NotLive) > 0 {
+				c.Violate("freed-while-linked", fmt.Sprintf("height race, round %d, %s: %s", round, when, w.NotLive[0]), witness)
+			}
+			for _, v := range e.a.Violations() {
+				c.Violate("alloc-"+v.Kind, fmt.Sprintf("height race: %+v", v), witness)
+			}
+			c.Sig("height-race/mem=%s/level=%d/%s", mem, s.VerifLevel(), when)
+			return !c.Failed()
+		}
+		if len(w.NotLive) > 0 {
+			c.Inconclusive("C04's oracle fired: " + w.NotLive[0])
+			return false
+		}
+		if len(w.Problems) > 0 {
+			c.Violate("structure", fmt.Sprintf("height race, round %d, %s: %v", round, when, w.Problems), witness)
+		}
+		if ps := slStatsProblems(s, w); len(ps) > 0 {
+			c.Violate("statistics", fmt.Sprintf("height race, round %d, %s: %v", round, when, ps), witness)
+		}
+		c.Sig("height-race/mem=%s/level=%d/%s", mem, s.VerifLevel(), when)
+		return !c.Failed()
+	}
+	del := func(k int, buf *skiplist.ActionBuffer) bool {
+		itm := e.intItem(k)
+		if e.a != nil {
+			tok := s.GetAccesBarrier().Acquire()
+			_, n, found := s.Lookup(itm, skiplist.CompareInt, buf, &s.Stats)
+			ok := found && s.DeleteNode2(n, skiplist.CompareInt, buf, &s.Stats)
+			s.GetAccesBarrier().Release(tok)
+			if ok {
+				s.GetAccesBarrier().FlushSession(unsafe.Pointer(n))
+			}
+			return ok
+		}
+		return s.Delete(itm, skiplist.CompareInt, buf, &s.Stats)
+	}
+	buf := s.MakeBuf()
+	key := 0
+	stalls := 0
+	for round := 0; round < 8 && !c.Failed(); round++ {
+		key += 10
+		stalled, others := key, []int{}
+		entered, release, done := make(chan struct{}), make(chan struct{}), make(chan bool, 1)
+		k := r.Intn(6)
+		go func() {
+			b := s.MakeBuf()
+			var sts skiplist.Stats
+			sts.IsLocal(true)
+			first := true
+			inner := draws(k)
+			_, ok := s.Insert2(e.intItem(stalled), skiplist.CompareInt, nil, b, func() float32 {
+				if first {
+					first = false
+					close(entered)
+					<-release
+				}
+				return inner()
+			}, &sts)
+			s.Stats.Merge(&sts)
+			done <- ok
+		}()
+		select {
+		case <-entered:
+			stalls++
+		case <-time.After(20 * time.Second):
+			c.Inconclusive("the stalled writer never reached its level draw")
+			return
+		}
+		for i, m := 0, 1+r.Intn(3); i < m; i++ { // complete inserts of nodes as tall as the list lets them be
+			key++
+			others = append(others, key)
+			if _, ok := s.Insert2(e.intItem(key), skiplist.CompareInt, nil, buf, draws(5+r.Intn(3)), &s.Stats); !ok {
+				c.Violate("insert", "insert of a fresh key failed", nil)
+			}
+		}
+		close(release)
+		if !<-done {
+			c.Violate("insert", "insert of a fresh key (held inside its level draw) failed", nil)
+		}
+		if !check(round, "after the inserts") {
+			return
+		}
+		// delete the tall nodes (all of them, or all but one) and look again
+		for i, kk := range others {
+			if i == 0 && r.Intn(2) == 0 {
+				continue
+			}
+			if !del(kk, buf) {
+				c.Violate("delete", "delete of a present key failed", nil)
+			}
+		}
+		if r.Intn(2) == 0 && !del(stalled, buf) {
+			c.Violate("delete", "delete of a present key failed", nil)
+		}
+		if !check(round, "after deleting the tall nodes") {
+			return
+		}
+	}
+	c.Count("writers_held_inside_the_level_draw", int64(stalls))
+	c.Sample(map[string]interface{}{"kind": "height-race", "mem": mem, "rounds": 8, "final_list_level": s.VerifLevel()})
+}
+
 // c14Restore: structure and statistics of an instance produced by LoadFromDisk (+ delta inserts).
 func c14Restore(c *rt.C) {
 	r := c.Rng
@@ -185,6 +317,10 @@ func runC14(c *rt.C) {
 		c13Micro(c, slMicros[c.Index], maxS, extra, "C14")
 		return
 	}
+	if c.Index%10 == 5 {
+		c14HeightRace(c, "C14")
+		return
+	}
 	switch c.Index % 5 {
 	case 0:
 		c14Bare(c)
@@ -222,7 +358,7 @@ func init() {
 	rt.Register(&rt.Prop{
 		ID: "C14", Level: "exploration",
 		Technique: "runtime monitoring at quiescent points: read-only walk of every level through verif accessors (order, sub-sequence, height/linkage, acyclicity by step bound) and reconciliation with GetStats/DumpStats/MemoryInUse and the allocator's live set",
-		Rule: "cases 0-11: the insert/delete micro-scenarios under the serialized controller, walked and reconciled after every schedule. Then rotating: bare skiplist hammered by 2-16 goroutines (random and forced levels up to 8, writer-local statistics merged as nitro does, three memory modes) and walked after each of 6 phases; instances produced by LoadFromDisk incl. delta inserts; builder output (after Assemble and after further operations); nitro contention engine and ownership engine with a checkpoint after every phase. " +
+		Rule: "cases 0-11: the insert/delete micro-scenarios under the serialized controller, walked and reconciled after every schedule. Then rotating: bare skiplist hammered by 2-16 goroutines (random and forced levels up to 8, writer-local statistics merged as nitro does, three memory modes) and walked after each of 6 phases; every 10th case is the height race (a writer held inside the level draw of Insert2 while others complete inserts of tall nodes and raise the list's height, released, walk; the tall nodes deleted, walk: nothing may be linked above the list's level); instances produced by LoadFromDisk incl. delta inserts; builder output (after Assemble and after further operations); nitro contention engine and ownership engine with a checkpoint after every phase. " +
 			"evaluations = quiescent points reconciled (or schedules); distinct = configuration tuples incl. maximum level seen",
 		Assumptions: []string{"quiescence: all harness goroutines joined and (nitro level) collection/free workers parked with empty queues", "marked nodes are excluded from the chain checks, as the property states"},
 		Cases: func(t string) int {
